@@ -23,6 +23,35 @@ let show_err = function
 let w32 = n_of_string "4294967296"
 let w64 = n_of_string "18446744073709551616"
 
+(* the AST of Spec/PatSyntax.v from the harness's token list *)
+let rec ast_seq toks stop =          (* returns (items, terminator, remaining tokens) *)
+  match toks with
+  | [] -> ([], "", [])
+  | t :: rest when List.mem t stop -> ([], t, rest)
+  | t :: rest ->
+    let arg i = n_of_string (List.nth (String.split_on_char ':' t) i) in
+    let jk i = (match int_of_string (List.nth (String.split_on_char ':' t) i) with 0 -> J1 | 1 -> J4 | _ -> JP) in
+    let (it, rest) = (match t.[0] with
+      | 'B' -> (IByte (arg 1), rest)
+      | 'S' -> (IStr (nlist_of_hex (List.nth (String.split_on_char ':' t) 1)), rest)
+      | 'W' -> (IWild (nat_of_int (int_of_n (arg 1))), rest)
+      | 'K' -> (ISkip (arg 1), rest)
+      | 'R' -> (IRange (arg 1, arg 2), rest)
+      | 'Q' -> (ISave, rest)
+      | 'I' -> (IRead (match int_of_n (arg 1) with 0 -> RI8 | 1 -> RU8 | 2 -> RI16 | 3 -> RU16 | 4 -> RI32 | _ -> RU32), rest)
+      | 'Z' -> (IZero, rest)
+      | 'A' -> (IAlign (arg 1), rest)
+      | 'J' -> (IJump (jk 1), rest)
+      | 'U' -> let (sub, _, rest') = ast_seq rest ["V"] in (ISub (jk 1, sub), rest')
+      | 'P' ->
+        let rec alts toks acc = (let (a, term, rest') = ast_seq toks ["O"; "C"] in
+          if term = "O" then alts rest' (a :: acc) else (List.rev (a :: acc), rest')) in
+        let (all, rest') = alts rest [] in
+        (match all with a :: more -> (IAlt (a, more), rest') | [] -> failwith "alt")
+      | _ -> failwith ("ast token " ^ t)) in
+    let (items, term, rest'') = ast_seq rest stop in
+    (it :: items, term, rest'')
+
 let handle kind fs obs =
   let bang = String.length obs > 0 && obs.[0] = '!' in
   match kind with
@@ -40,6 +69,15 @@ let handle kind fs obs =
       | "err" :: rest -> let ofs = fields rest in int_of_string (field ofs "pos") <= len
       | _ -> false) in
     (mobs, ok, len > 0, (if String.length mobs > 2 && String.sub mobs 0 2 = "ok" then "parse-ok" else "parse-err"), None)
+  | "syn" ->
+    (* theorem 2 against the real parser: model observation = the INTENDED compiler on the AST; oracle: the canonical
+       spelling the harness printed is Spec `show`, the real parser's atoms are Spec `compile`, and so are the model parser's *)
+    let text = nlist_of_hex (field fs "text") in
+    let (a, _, _) = ast_seq (split_on ',' (field fs "ast")) [] in
+    let atoms = compile a in
+    let mobs = Printf.sprintf "ok atoms=%s save_len=%s" (join "," (List.map show_atom atoms)) (string_of_n (save_len atoms)) in
+    let ok = (not bang) && show a = text && obs = mobs && (match parse text with Ok (Inr p) -> p = atoms | _ -> false) in
+    (mobs, ok, true, "syn", None)
   | "exec" ->
     let img = image_of_fields fs in
     let get = mget_of img in
@@ -74,6 +112,25 @@ let handle kind fs obs =
             chk exp got)
          | "nomatch" -> field ofs "match" = "0"
          | _ -> true) in
-       (mobs, ok, true, Printf.sprintf "exec,%s,%s" expect (if fmt64 then "pe64" else "pe32"), None))
+       (* oracle 2 (theorem 3a, as a check of the implementation): for an AST without braces and alternatives whose last item
+          constrains something, the verdict is the one of the structural semantics [den_top] and the save array is the
+          initial one with the log's captures stored *)
+       let (ok2, tag2) = (match List.assoc_opt "ast" fs with
+         | None -> (true, "")
+         | Some toks ->
+           let (a, _, _) = ast_seq (split_on ',' toks) [] in
+           let flat = List.for_all (function ISub _ | IAlt _ -> false | _ -> true) a in
+           let solid = (match List.rev a with
+             | [] -> true
+             | (IByte _ | ISave | IRead _ | IZero | IAlign _ | IJump _) :: _ -> true
+             | IStr (_ :: _) :: _ -> true
+             | _ -> false) in
+           if not (flat && solid) then (true, "")
+           else
+             let ofs = fields (String.split_on_char ' ' obs) in
+             (match den_top (scan_of_view v) a (n_of_string (field fs "cursor")) with
+              | Some lg -> (field ofs "match" = "1" && field ofs "save" = join "," (List.map string_of_n (apply_log lg save0)), ",den-match")
+              | None -> (field ofs "match" = "0", ",den-nomatch"))) in
+       (mobs, ok && ok2, true, Printf.sprintf "exec,%s,%s%s" expect (if fmt64 then "pe64" else "pe32") tag2, None))
   | _ -> ("!unknown-kind", false, false, "unknown", None)
 let () = run_driver handle
